@@ -746,8 +746,10 @@ pub fn json_diagram(d: &mut Decider) -> GSpec {
 pub fn json_diagram_sized(d: &mut Decider, large: bool) -> GSpec {
     let mut g = GSpec::empty();
     let nsp = if large { 40 + d.choose("j.nsp.large", 31) } else { d.choose("j.nsp", 11) };
-    let nin = d.choose("j.nin", 4);
-    let nout = d.choose("j.nout", 4);
+    // mostly 0..3 boundaries per side, sometimes up to 12 (two-digit positions in the lists)
+    let many = !large && d.coin("j.manyio", 1, 8);
+    let nin = if many { d.choose("j.nin.many", 13) } else { d.choose("j.nin", 4) };
+    let nout = if many { d.choose("j.nout.many", 13) } else { d.choose("j.nout", 4) };
     let dens: [i64; 16] = [1, 1, 2, 4, 4, 8, 3, 5, 7, 16, 64, 256, 255, 97, 128, 12];
     let big_dens: [i64; 4] = [257, 1000, 65537, 1 << 20];
     let allow_big = d.coin("j.big", 1, 12);
@@ -915,7 +917,7 @@ pub fn json_diagram_sized(d: &mut Decider, large: bool) -> GSpec {
             g.one_plus.push((1, 1));
         }
         1 | 2 => {
-            g.sqrt2_pow = d.range("j.sp", -12, 12) as i32;
+            g.sqrt2_pow = if d.coin("j.sp.far", 1, 6) { d.range("j.sp.big", -600, 600) as i32 } else { d.range("j.sp", -12, 12) as i32 };
             g.omega_pow = d.range("j.sk", 0, 7);
         }
         3 | 4 => {
